@@ -8,6 +8,7 @@ import (
 	"errors"
 	"fmt"
 	"sort"
+	"strconv"
 	"strings"
 	"sync"
 	"time"
@@ -600,6 +601,7 @@ func (h *harness) fullHistoryCase(hist fullHistory, family string) {
 	var candRets []uint64                       // retainedBlocks of every start that ran with prune-mode
 	pruneDoneRet, pruneDone := uint64(0), false // retainedBlocks of the start whose pruner returned (nil, nil)
 	var btImgs []string
+	staleToken := false // some start ran on a database with a stale stager-phase pruner token (see prunerTokenStale)
 	starts := append([]fullStart{}, hist.Starts...)
 	for si := 0; si < len(starts)+3; si++ {
 		var sp fullStart
@@ -627,6 +629,9 @@ func (h *harness) fullHistoryCase(hist fullHistory, family string) {
 			candRets = append(candRets, r)
 		}
 		headState, prune = headState || sp.HeadState, prune || sp.Prune
+		if prunerTokenStale(cur) {
+			staleToken = true
+		}
 		o := realFullStart(cur, hist.Spec, sp)
 		res.Case(fmt.Sprintf("%s|%d|%+v|%s|%d", family, si, sp, hist.Spec.Chain.Layout, hist.Spec.Chain.Seed), o.commits > 0)
 		if o.hang {
@@ -754,7 +759,15 @@ func (h *harness) fullHistoryCase(hist fullHistory, family string) {
 				res.Violate(lib.Violation{Sig: sig, What: "the history completed the upgrade, the UNDISTURBED upgrade of the same database does not: " + msg,
 					Replay: fullHistory{Spec: hist.Spec, Starts: []fullStart{{HeadState: headState, Prune: prune, Retained: int(effRet)}}}})
 			} else if same, why := sameDumpModuloEmpty(hist.Spec.Chain, dump(cur), dump(tw.after)); !same {
-				res.Violate(lib.Violation{Sig: "upgrade-final-db-differs-from-undisturbed-upgrade", What: why, Replay: hist})
+				sig := "upgrade-final-db-differs-from-undisturbed-upgrade"
+				if staleToken && onlyHistoryEntriesMissing(dump(cur), dump(tw.after), hist.Spec.Chain) {
+					// exact cause: a start ran on 'pruner finished, scratch wiped, stager-phase token still
+					// stored'; the only difference is history entries missing in the result
+					sig = "historyprunner-stale-resume-token-after-death-before-apply"
+					why = "a start resumed the pruner from a stale stager-phase token after a run that had finished the pruner died before the runner's commit: " + why
+				}
+				res.Hit("oracle:" + sig)
+				res.Violate(lib.Violation{Sig: sig, What: why, Replay: hist})
 			}
 			if si >= len(starts)-1 {
 				return
@@ -898,6 +911,9 @@ func (h *harness) fullAll() {
 		tw := realFullStart(d1, pr, fullStart{Prune: true, HeadState: true, Inflate: true})
 		h.res.HitN("full-prune-commits", tw.commits)
 		h.prunerRestoreCrash(pr, "prune")
+		st := pr
+		st.Retained = 16 // a wide kept window: many commits inside the stager
+		h.prunerStaleTokenCrash(st, "prune")
 		h.fullHistoryCase(fullHistory{Spec: pr, Starts: []fullStart{{Prune: true, HeadState: true}}}, "prune-undisturbed")
 		step := 1
 		if h.f.Tier == "quick" {
@@ -1458,4 +1474,205 @@ func (h *harness) pruneCutoffGrid() {
 			check(fs, d, ret, upto, "database already pruned by a dead run")
 		}
 	}
+}
+
+// ---- history pruner: stale resume token + death between the pruner's last commit and the runner's --
+
+// prunerStaleTokenCrash: (A) a start with prune-mode is cancelled while the pruner is staging: the
+// runner saves the pruner's resume token (stager progress N, restorer 0, pinned cutoff). (B) the next
+// start finishes the pruner — its last commit wipes the scratch namespace — and the process dies
+// before the runner's own commit (applied bit + token deletion). The image after the scratch wipe
+// is found by watching the store (independent of scheduling). (C) restart on that image: the final
+// database must be the one of an undisturbed upgrade.
+func (h *harness) prunerStaleTokenCrash(fs fullSpec, family string) {
+	d0, err := fs.build()
+	if err != nil {
+		h.res.Fatalf("fixture does not build: %v", err)
+		return
+	}
+	height := fs.Chain.height()
+	// (A) find a cancellation point that leaves a stager-phase token
+	var dA *memory.Database
+	for k := 1; k <= 300 && dA == nil; k++ {
+		o := realFullStart(d0, fs, fullStart{Prune: true, Inflate: true, CancelAt: k})
+		if o.hang {
+			return
+		}
+		if ob := o.obs[1]; ob != nil && len(ob.st) == 24 && !o.crashed {
+			stager := binary.BigEndian.Uint64(ob.st[0:8])
+			restorer := binary.BigEndian.Uint64(ob.st[8:16])
+			cut := binary.BigEndian.Uint64(ob.st[16:24])
+			if restorer == 0 && stager > cut+1 && stager <= height {
+				dA = o.after
+			}
+		}
+		if o.result == "ok" && !o.crashed {
+			break
+		}
+	}
+	if dA == nil {
+		h.res.Fatalf("%s: no cancellation point leaves a stager-phase resume token of the pruner", family)
+		return
+	}
+	// (B) finish the pruner, image right after its scratch wipe while the token is still stored
+	work := dA.Copy()
+	store := newFaultStore(work)
+	var img *memory.Database
+	scratchSeen := false
+	store.hook = func(_ int, s *faultStore) {
+		if img != nil {
+			return
+		}
+		empty := bucketEmpty(s.Database, db.Temporary)
+		if !empty {
+			scratchSeen = true
+		}
+		if _, terr := migration.GetIntermediateState(s.Database, 1); scratchSeen && empty && terr == nil {
+			if md, merr := migration.GetSchemaMetadata(s.Database); merr == nil && !md.CurrentVersion.Has(1) {
+				img = s.image()
+			}
+		}
+	}
+	reg, _ := fullRegistry(true, false, fs.retained(), func(_ int, m migration.Migration) migration.Migration { return m })
+	runner, err := migration.NewRunner(reg, store, &networks.Sepolia, log.NewNopZapLogger())
+	if err != nil || hungOnce.Load() {
+		h.res.Fatalf("%s: runner on the cancelled database: %v", family, err)
+		return
+	}
+	if !store.runWatched(8*time.Second, 180*time.Second, func() { _ = runner.Run(context.Background()) }) {
+		hungOnce.Store(true)
+		return
+	}
+	h.res.Case(family+"|pruner-stale-token|"+fs.Chain.Layout, true)
+	if img == nil {
+		h.res.Fatalf("%s: no image 'scratch wiped, token still stored, bit unset' was seen", family)
+		return
+	}
+	h.res.Hit("pruner-stale-token-image")
+	// (C) restart
+	o := realFullStart(img, fs, fullStart{Prune: true})
+	tw := realFullStart(d0, fs, fullStart{Prune: true})
+	rp := prunerReplay{fs, "prune-mode upgrade cancelled while the pruner is staging (token saved); next start finishes the pruner and dies right after its last commit (scratch wiped) before the runner's commit; restart"}
+	if o.hang || tw.result != "ok" {
+		h.res.Fatalf("%s: restart hangs or the undisturbed upgrade fails (%s)", family, tw.result)
+		return
+	}
+	if o.result != "ok" {
+		sig, msg := classifyUpgradeFailure(o, false, true)
+		if sig == "upgrade-fails-after-interruption" {
+			sig = "historyprunner-stale-resume-token-after-death-before-apply"
+		}
+		h.res.Hit("oracle:" + sig)
+		h.res.Violate(lib.Violation{Sig: sig, What: "restart on the image fails: " + msg, Replay: rp})
+		return
+	}
+	// correspondence: the set of blocks that lose history entries is the one Pruner.finish gives for the
+	// pinned or for the guarded variant (token and disk read off the image)
+	{
+		tok, _ := migration.GetIntermediateState(img, 1)
+		stager, cut := binary.BigEndian.Uint64(tok[0:8]), binary.BigEndian.Uint64(tok[16:24])
+		want, have, live := historyBlocks(dump(tw.after)), historyBlocks(dump(o.after)), historyBlocks(dump(img))
+		var lost []uint64
+		for b := range want {
+			if !have[b] {
+				lost = append(lost, b)
+			}
+		}
+		sort.Slice(lost, func(i, j int) bool { return lost[i] < lost[j] })
+		var liveL []uint64
+		for b := range live {
+			liveL = append(liveL, b)
+		}
+		sort.Slice(liveL, func(i, j int) bool { return liveL[i] < liveL[j] })
+		show := func(l []uint64) string {
+			if len(l) == 0 {
+				return "-"
+			}
+			p := make([]string, len(l))
+			for i, b := range l {
+				p[i] = fmt.Sprint(b)
+			}
+			return strings.Join(p, ",")
+		}
+		restrict := func(ans string) string { // model answer restricted to blocks that have history at all
+			var l []uint64
+			if ans != "-" {
+				for _, f := range strings.Split(ans, ",") {
+					if b, perr := strconv.ParseUint(f, 10, 64); perr == nil && want[b] {
+						l = append(l, b)
+					}
+				}
+			}
+			return show(l)
+		}
+		m0 := restrict(h.bt.ask(fmt.Sprintf("pr.finish 0 %d %d %d 0 %s -", cut, height, stager, show(liveL))))
+		m1 := restrict(h.bt.ask(fmt.Sprintf("pr.finish 1 %d %d %d 0 %s -", cut, height, stager, show(liveL))))
+		h.res.Compared(1)
+		if got := show(lost); got != m0 && got != m1 {
+			h.res.Mismatch(lib.Mismatch{Sig: "pruner-finish-lost-blocks-differ", Impl: got, Model: "pinned " + m0 + " / guarded " + m1,
+				Input: fmt.Sprintf("cutoff %d height %d token stager %d live %s", cut, height, stager, show(liveL))})
+		} else if got == m0 && m0 != m1 {
+			h.res.Hit("pruner-finish:pinned-variant")
+		} else {
+			h.res.Hit("pruner-finish:guarded-variant")
+		}
+	}
+	if same, why := sameDumpModuloEmpty(fs.Chain, dump(o.after), dump(tw.after)); !same {
+		h.res.Hit("oracle:historyprunner-stale-resume-token-after-death-before-apply")
+		h.res.Violate(lib.Violation{Sig: "historyprunner-stale-resume-token-after-death-before-apply",
+			What: "the restart resumes the stager from the stale token (blocks below it are not restaged although the scratch copies are gone), " +
+				"wipes the live history again and restores only what is in the scratch namespace: kept history entries are lost (" + why + ")",
+			Replay: rp})
+	}
+}
+
+// prunerTokenStale: the database holds a stager-phase resume token of the history pruner (stager
+// progress above the pinned cutoff, restorer not started), the migration is not recorded as applied,
+// and the scratch namespace is empty: the copies the token speaks of do not exist (any more).
+func prunerTokenStale(d *memory.Database) bool {
+	st, err := migration.GetIntermediateState(d, 1)
+	if err != nil || len(st) != 24 {
+		return false
+	}
+	md, err := migration.GetSchemaMetadata(d)
+	if err != nil || md.CurrentVersion.Has(1) {
+		return false
+	}
+	stager, restorer, cut := binary.BigEndian.Uint64(st[0:8]), binary.BigEndian.Uint64(st[8:16]), binary.BigEndian.Uint64(st[16:24])
+	return restorer == 0 && stager > cut && bucketEmpty(d, db.Temporary)
+}
+
+// onlyHistoryEntriesMissing: got differs from want only by missing entries of the three deprecated
+// state-history buckets (want has them, got does not), empty-block records aside.
+func onlyHistoryEntriesMissing(got, want map[string]string, c chainSpec) bool {
+	hb := map[byte]bool{byte(db.DeprecatedContractStorageHistory): true, byte(db.DeprecatedContractNonceHistory): true, byte(db.DeprecatedContractClassHashHistory): true}
+	g2 := map[string]string{}
+	for k, v := range got {
+		g2[k] = v
+	}
+	missing := 0
+	for k, v := range want {
+		if _, ok := got[k]; !ok && len(k) > 0 && hb[k[0]] {
+			g2[k] = v
+			missing++
+		}
+	}
+	same, _ := sameDumpModuloEmpty(c, g2, want)
+	return same && missing > 0
+}
+
+// historyBlocks: the blocks that have at least one entry in the three deprecated state-history buckets
+// (the block number is the last 8 bytes of the key).
+func historyBlocks(d map[string]string) map[uint64]bool {
+	out := map[uint64]bool{}
+	for k := range d {
+		if len(k) < 9 {
+			continue
+		}
+		switch db.Bucket(k[0]) {
+		case db.DeprecatedContractStorageHistory, db.DeprecatedContractNonceHistory, db.DeprecatedContractClassHashHistory:
+			out[binary.BigEndian.Uint64([]byte(k[len(k)-8:]))] = true
+		}
+	}
+	return out
 }
